@@ -131,6 +131,13 @@ impl Lexicon {
             let (result, nin, nout) = rdr.read_field(bytes, &mut output);
             let record_end = match result {
                 ReadFieldResult::InputEmpty => {
+                    // Only blank lines are left at the end of the file.
+                    if field_cnt == 0
+                        && nout == 0
+                        && bytes.iter().all(|&b| b == b'\n' || b == b'\r')
+                    {
+                        break;
+                    }
                     features_len += nin + 1;
                     record_end_pos += nin;
                     true
